@@ -200,8 +200,10 @@ def h_history(locus, tid, other, preset):
         else:
             oe = gi.all_isoforms_exons[other]
             first = [tuple(x) for x in oe]
-        # the first read may start far upstream of the locus (unannotated sequence)
-        first = [(max(1, first[0][0] - [0, 300, 4000][g.choice("first_read_upstream", 3)]), first[0][1])] + first[1:]
+        # the first read may extend far beyond the locus (unannotated sequence)
+        ext = [(0, 0), (300, 0), (0, 300), (0, 6000)][g.choice("first_read_extension", 4)]
+        first = [(max(1, first[0][0] - ext[0]), first[0][1])] + first[1:]
+        first = first[:-1] + [(first[-1][0], first[-1][1] + ext[1])]
         pc = lrp.CombinedProfileConstructor(gi, params)
         assigner = lra.LongReadAssigner(gi, params)
         none = PolyAInfo(-1, -1, -1, -1)
@@ -257,7 +259,7 @@ def instances(tier, seed):
                             continue        # on this locus the edited structure is another isoform's (truncated) structure
                     out.append(Instance("far[%s,%s,%s,%s]" % (locus, models[0][0], kind, preset), h_negative(locus, models[0][0], kind, preset), F,
                                         "locus %s, %s with one edit of symbolic size >= 400 bp" % (locus, models[0][0]), weight=15, budget_s=900))
-    for locus, tid, other in ([("alt_site_near", "T1", "T1"), ("skip", "T1", "T2"), ("alt_site_tie", "T12", "T12")] if q else
+    for locus, tid, other in ([("alt_site_other_end", "T1", "T1"), ("skip", "T1", "T2"), ("alt_site_tie", "T12", "T12")] if q else
                               [(l, LOCI[l][0][0], o) for l in loci if len(LOCI[l]) > 1 for o in (LOCI[l][0][0], LOCI[l][-1][0])]):
         out.append(Instance("history[%s,%s after %s]" % (locus, tid, other), h_history(locus, tid, other, "default"), F,
                             "locus %s: a read of %s (possibly starting far upstream) and then a read following %s through one assigner" % (locus, other, tid),
